@@ -287,11 +287,11 @@ func ParseInstalled(installed io.Reader) ([]*InstalledPackage, error) { //nolint
 		case "U":
 			pkg.URL = val
 		case "D":
-			pkg.Dependencies = strings.Split(val, " ")
+			pkg.Dependencies = splitRepeatedField(val)
 		case "p":
-			pkg.Provides = strings.Split(val, " ")
+			pkg.Provides = splitRepeatedField(val)
 		case "r":
-			pkg.Replaces = strings.Split(val, " ")
+			pkg.Replaces = splitRepeatedField(val)
 		case "c":
 			pkg.RepoCommit = val
 		case "t":
@@ -302,7 +302,7 @@ func ParseInstalled(installed io.Reader) ([]*InstalledPackage, error) { //nolint
 			pkg.BuildDate = i
 			pkg.BuildTime = time.Unix(i, 0).UTC()
 		case "i":
-			pkg.InstallIf = strings.Split(val, " ")
+			pkg.InstallIf = splitRepeatedField(val)
 		case "S":
 			size, err := strconv.ParseUint(val, 10, 64)
 			if err != nil {
